@@ -197,7 +197,7 @@ Proof. exact chk_sound_unique. Qed.
 Print Assumptions C16_chk_sound_unique.
 
 (* ---------------------------------------------------------------- non-vacuity *)
-Definition s1 : state := init_state "moniker,username" 0 [0] [1] [6] [0; 1; 2; 3] [0; 1; 2; 3] bal0 true true [] true.
+Definition s1 : state := init_state "moniker,username" 0 [0] [1] [6] [0; 1; 2; 3] [0; 1; 2; 3] bal0 true true [] true true.
 Example C16_nonvacuous_wellformed : W s1 /\ del_fix s1 = true /\ rot_check s1 = true /\ msg_guard s1 = true /\ KU s1 /\ MK s1 /\ LU s1.
 Proof.
   split; [apply W_init|split; [reflexivity|split; [reflexivity|split; [reflexivity|split; [split; intros r; simpl; tauto|split; vm_compute; reflexivity]]]]].
